@@ -21,18 +21,22 @@ impl EventSource for Sleep {
         // keep its handle so that the cancel data stays valid until we return
         let _handle = co_get_handle(&co);
         let cancel = co_cancel_data(&co);
+        // `self` lives on the coroutine's stack, don't touch it once a cancel can resume it
+        let dur = self.dur;
         // put the coroutine into the timer list
         let sleep_co = Arc::new(AtomicOption::some(co));
-        get_scheduler().add_timer(self.dur, sleep_co.clone());
-
-        #[cfg(may_verif)]
-        may_queue::verif::point(may_queue::verif::site::SLEEP_SUB_ARMED, 0);
-        // register the cancel data
-        cancel.set_co(sleep_co);
+        // register the cancel data before the timer gets the coroutine: once it
+        // has fired the coroutine runs on and registers somewhere else, which a
+        // late registration from here would overwrite
+        cancel.set_co(sleep_co.clone());
         // re-check the cancel status
         if cancel.is_canceled() {
             unsafe { cancel.cancel() };
         }
+
+        #[cfg(may_verif)]
+        may_queue::verif::point(may_queue::verif::site::SLEEP_SUB_ARMED, 0);
+        get_scheduler().add_timer(dur, sleep_co);
     }
 }
 
